@@ -36,6 +36,10 @@ CallOf(c) ==
 
 Pre(r)  == StateOf(T[r.pre].state)
 Post(r) == IF r.same THEN Pre(r) ELSE StateOf(r.state)
+(* the mirror listener's copy, JSON arrays turned into the sets they stand for *)
+MirrorNorm(m) == [m EXCEPT !.rel = [rn \in DOMAIN @ |-> SeqSet(@[rn])], !.conn = SeqSet(@)]
+HasMirror(r) == "msame" \in DOMAIN r
+MirrorAfter(r) == MirrorNorm(IF r.msame THEN T[r.pre].mirror ELSE r.mirror)
 FullPre(r)  == T[r.pre].state
 FullPost(r) == IF r.same THEN FullPre(r) ELSE r.state
 
@@ -63,10 +67,19 @@ StrictClauses(pre, c, out, post) ==
 
 CheckRecord(k) ==
     LET r == T[k] IN
-    IF r.t = "reset" THEN Report("FAIL", k, StateClauses(StateOf(r.state), LookupOf(r.state)))
+    IF r.t = "reset" THEN
+         /\ Report("FAIL", k, StateClauses(StateOf(r.state), LookupOf(r.state)))
+         /\ (IF "mirror" \in DOMAIN r
+             THEN Report("FAIL", k, << <<"C19_MirrorExact", C19_MirrorExact(StateOf(r.state), MirrorNorm(r.mirror))>> >>)
+             ELSE TRUE)
     ELSE LET pre == Pre(r)  post == Post(r)  c == CallOf(r.call) IN
          /\ (IF r.same THEN TRUE ELSE Report("FAIL", k, StateClauses(post, LookupOf(r.state))))
          /\ Report("FAIL", k, ActionClauses(pre, c, r.out, post, FullPre(r), FullPost(r)))
+         /\ (IF HasMirror(r)
+             THEN Report("FAIL", k, << <<"C19_MirrorExact", C19_MirrorExact(post, MirrorAfter(r))>>,
+                                       <<"C19_BeforeEffect", C19_BeforeEffect(r.ann)>>,
+                                       <<"C19_Transparent", IF "agree" \in DOMAIN r THEN r.agree ELSE TRUE>> >>)
+             ELSE TRUE)
          /\ (IF Strict THEN Report("DRIFT", k, StrictClauses(pre, c, r.out, post)) ELSE TRUE)
 
 Init == l = 0
